@@ -15,6 +15,7 @@ type Row []any
 type Value []byte
 
 type Result struct {
+	Fields       []string
 	Rows         [][]Value
 	RowsAffected uint64
 }
@@ -71,16 +72,16 @@ const batchSize = 4
 
 type Handler struct{ indexed bool }
 
-func (h *Handler) doQuery(ctx *Ctx, iter Iter, one bool, callback func(*Result, bool) error, buf *ByteBuffer) error {
+func (h *Handler) doQuery(ctx *Ctx, iter Iter, one bool, fields []string, callback func(*Result, bool) error, buf *ByteBuffer) error {
 	var r *Result
 	var processed bool
 	var err error
 	if one {
-		r, err = resultForOne(ctx, iter, buf)
+		r, err = resultForOne(ctx, iter, fields, buf)
 	} else if h.indexed {
-		r, processed, err = h.resultForValues(ctx, iter, callback, buf)
+		r, processed, err = h.resultForValues(ctx, iter, fields, callback, buf)
 	} else {
-		r, processed, err = h.resultForRows(ctx, iter, callback, buf)
+		r, processed, err = h.resultForRows(ctx, iter, fields, callback, buf)
 	}
 	if err != nil {
 		return err
@@ -91,7 +92,7 @@ func (h *Handler) doQuery(ctx *Ctx, iter Iter, one bool, callback func(*Result, 
 	return callback(r, false)
 }
 
-func resultForOne(ctx *Ctx, iter Iter, buf *ByteBuffer) (res *Result, err error) {
+func resultForOne(ctx *Ctx, iter Iter, fields []string, buf *ByteBuffer) (res *Result, err error) {
 	defer func() {
 		if cerr := iter.Close(ctx); cerr != nil && err == nil {
 			res, err = nil, cerr
@@ -99,7 +100,7 @@ func resultForOne(ctx *Ctx, iter Iter, buf *ByteBuffer) (res *Result, err error)
 	}()
 	row, err := iter.Next(ctx)
 	if err == io.EOF {
-		return &Result{}, nil
+		return &Result{Fields: fields}, nil
 	} else if err != nil {
 		return nil, err
 	}
@@ -110,10 +111,10 @@ func resultForOne(ctx *Ctx, iter Iter, buf *ByteBuffer) (res *Result, err error)
 	if err != nil {
 		return nil, err
 	}
-	return &Result{Rows: [][]Value{out}, RowsAffected: 1}, nil
+	return &Result{Fields: fields, Rows: [][]Value{out}, RowsAffected: 1}, nil
 }
 
-func (h *Handler) resultForRows(ctx *Ctx, iter Iter, callback func(*Result, bool) error, buf *ByteBuffer) (*Result, bool, error) {
+func (h *Handler) resultForRows(ctx *Ctx, iter Iter, fields []string, callback func(*Result, bool) error, buf *ByteBuffer) (*Result, bool, error) {
 	eg, ctx := ctx.NewErrgroup()
 
 	send := callback
@@ -159,7 +160,7 @@ func (h *Handler) resultForRows(ctx *Ctx, iter Iter, callback func(*Result, bool
 		defer close(resChan)
 		for {
 			if res == nil {
-				res = &Result{Rows: make([][]Value, 0, batchSize)}
+				res = &Result{Fields: fields, Rows: make([][]Value, 0, batchSize)}
 			}
 			select {
 			case <-ctx.Done():
@@ -218,7 +219,7 @@ func (h *Handler) resultForRows(ctx *Ctx, iter Iter, callback func(*Result, bool
 	return res, processed, nil
 }
 
-func (h *Handler) resultForValues(ctx *Ctx, iter Iter, callback func(*Result, bool) error, buf *ByteBuffer) (*Result, bool, error) {
+func (h *Handler) resultForValues(ctx *Ctx, iter Iter, fields []string, callback func(*Result, bool) error, buf *ByteBuffer) (*Result, bool, error) {
 	eg, ctx := ctx.NewErrgroup()
 
 	wg := sync.WaitGroup{}
@@ -253,7 +254,7 @@ func (h *Handler) resultForValues(ctx *Ctx, iter Iter, callback func(*Result, bo
 		defer wg.Done()
 		for {
 			if res == nil {
-				res = &Result{Rows: make([][]Value, batchSize)}
+				res = &Result{Fields: fields, Rows: make([][]Value, batchSize)}
 			}
 			select {
 			case <-ctx.Done():
